@@ -152,7 +152,7 @@ func v1Check(c *Ctx, kind, tok string, rp c19Replay, wantDump string) (accepted 
 }
 
 func runC19(c *Ctx) {
-	c.Res.Rule = "version-1 claims of all seven kinds from the reflective generator (every field set or not, int64 edges, special strings) x every signer role the v1 library permits: v1 Encode -> own decoder: all fields preserved (reflective compare modulo nil/empty); every token also through the Lean model of v1 Encode and Decode; single-character substitutions / insertions / deletions in payload and signature (sampled in quick, exhaustive positions on a pool in thorough): refused or identical content; forged wrong-role issuers (correctly signed); v2-header tokens. non-trivial = distinct tokens."
+	c.Res.Rule = "version-1 claims of all seven kinds from the reflective generator (every field set or not, int64 edges, special strings) x every signer role the v1 library permits: v1 Encode -> own decoder: all fields preserved (reflective compare modulo nil/empty); every token also through the Lean model of v1 Encode and Decode; single-character substitutions / insertions / deletions in payload and signature (sampled in quick, exhaustive positions on a pool in thorough): refused or identical content; alterations that leave the base64url alphabet (padding, +, /, line breaks, blanks in every segment); forged wrong-role issuers (correctly signed); v2-header tokens. non-trivial = distinct tokens."
 	type vt struct{ kind, tok, dump string }
 	var pool []vt
 	n := c.N(400, 40000)
@@ -254,6 +254,14 @@ func runC19(c *Ctx) {
 			}
 			edit(positions-1, 0)
 			edit(len(segs[1])-1, 0)
+		}
+	}
+	// alterations that leave the base64url alphabet (padding, '+', '/', line breaks, blanks)
+	for _, p := range pool {
+		ts, hows := alphabetEdits(p.tok)
+		for i, t := range ts {
+			v1Check(c, p.kind, t, c19Replay{p.kind, t, p.tok, hows[i]}, p.dump)
+			c.Count("alphabet-edit")
 		}
 	}
 	// forged issuers of every role, correctly signed over the payload, and v2-style headers
